@@ -26,8 +26,8 @@ PROPERTY = "C13"
 LEVEL = "exploration"
 ops.AVOID_NODE_OUTPUTS_ON_GRAPH_INPUTS = True
 TIERS = {
-    "quick": {"wall": 40, "chunk": 40, "shrink_budget": 300, "shrink_wall": 60},
-    "thorough": {"wall": 600, "chunk": 100, "shrink_budget": 600, "shrink_wall": 240},
+    "quick": {"wall": 33, "optimize_wall": 7, "chunk": 40, "shrink_budget": 300, "shrink_wall": 60},
+    "thorough": {"wall": 600, "optimize_wall": 90, "chunk": 100, "shrink_budget": 600, "shrink_wall": 240},
 }
 RULE = (
     "each run = one seeded well-formed model (nested subgraphs capturing outer values, functions, shared values, metadata, doc strings, "
@@ -159,6 +159,74 @@ def _internal_objects(g) -> dict:
     return internal
 
 
+def _tensor_states(model) -> dict:
+    """Own fields of every tensor object the model reaches (a clone may share these objects; it never writes them)."""
+    out: dict = {}
+
+    def add(t, where):
+        if t is None or id(t) in out:
+            return
+        try:
+            st = (t.name, t.doc_string, tuple(sorted((t.metadata_props or {}).items())), int(t.dtype), tuple(str(d) for d in t.shape.dims))
+        except Exception as e:  # noqa: BLE001
+            st = ("unreadable", type(e).__name__)
+        out[id(t)] = (where, st, t)
+
+    def attrs(owner, mapping):
+        for a in mapping.values():
+            if a.is_ref() or a.value is None:
+                continue
+            if a.type == ir.AttributeType.TENSOR:
+                add(a.value, f"{owner}.{a.name}")
+            elif a.type == ir.AttributeType.TENSORS:
+                for t in a.value:
+                    add(t, f"{owner}.{a.name}[]")
+
+    for top in [model.graph] + [f.graph for f in model.functions.values()]:
+        for g in [top] + list(top.subgraphs()):
+            for v in list(g.inputs) + list(g.initializers.values()):
+                add(v.const_value, f"value {v.name!r}")
+            for n in g:
+                attrs(f"node {n.name!r}", n.attributes)
+                for o in n.outputs:
+                    add(o.const_value, f"output {o.name!r}")
+    for f in model.functions.values():
+        attrs(f"function {f.name!r}", f.attributes)
+    return out
+
+
+def _tensors_changed(before: dict) -> str | None:
+    for where, st, t in before.values():
+        try:
+            now = (t.name, t.doc_string, tuple(sorted((t.metadata_props or {}).items())), int(t.dtype), tuple(str(d) for d in t.shape.dims))
+        except Exception as e:  # noqa: BLE001
+            now = ("unreadable", type(e).__name__)
+        if now != st:
+            return f"tensor at {where}: {st} -> {now}"
+    return None
+
+
+def _only_shared_attribute_tensor_renamed(before: dict, planted: set, serialize, proto_before) -> bool:
+    """True iff the only difference is the *name* of tensor objects that are at once a Constant node's attribute and
+    the const_value of its output (renaming that output - here or in a copy sharing the tensor - renames the tensor):
+    putting the names back restores the serialized form exactly.  (Recorded finding, see known_findings.json.)"""
+    changed = []
+    for where, st, t in before.values():
+        try:
+            now = (t.name, t.doc_string, tuple(sorted((t.metadata_props or {}).items())), int(t.dtype), tuple(str(d) for d in t.shape.dims))
+        except Exception:  # noqa: BLE001
+            return False
+        if now != st:
+            if id(t) not in planted or now[1:] != st[1:]:
+                return False
+            changed.append((t, st[0]))
+    if not changed:
+        return False
+    for t, name in changed:
+        t.name = name
+    return serialize() == proto_before
+
+
 def _find_subgraph_with_outer(model):
     for n in model.graph.all_nodes():
         for a in n.attributes.values():
@@ -230,8 +298,22 @@ def run_case(case: dict) -> dict:
                 inner = ir.TensorType(ir.DataType.FLOAT)
                 v.type = ir.SequenceType(inner) if i % 2 else ir.OptionalType(ir.SequenceType(inner))
                 inc("nested_typed_values")
+    planted: set = set()
+    if Streams(case["run_seed"]).rng("const-outputs").random() < 0.5:
+        # what constant propagation leaves behind: node outputs that know their constant tensor - the very tensor object
+        # the Constant node's attribute holds, under its own name (tensors may be shared with a clone, never written)
+        tops = [model.graph] + [f.graph for f in model.functions.values()]
+        for top in tops:
+            for n in top.all_nodes():
+                a_ = n.attributes.get("value")
+                if n.op_type == "Constant" and a_ is not None and not a_.is_ref() and a_.type == ir.AttributeType.TENSOR and n.outputs:
+                    n.outputs[0].const_value = a_.value
+                    planted.add(id(a_.value))
+                    inc("const_valued_node_outputs")
     kind = case["clone"]
     inc("clone_" + kind)
+    tensors0 = _tensor_states(model)
+    proto0 = _proto_bytes(model)
     # the original as it is before anything is cloned: cloning (accepted or refused) never changes it
     w0 = World()
     w0.reg(model)
@@ -341,6 +423,14 @@ def run_case(case: dict) -> dict:
             d = snapshot.diff(snap0, snap_after)
             viol("clone-changed-the-original", f"{kind}: cloning changed the original: {str(d[:2])[:400]}", key=f"clone-changed-the-original|{kind}")
             return res
+    if kind != "functionalize":
+        tc = _tensors_changed(tensors0)
+        if tc is not None:
+            viol("clone-changed-the-original", f"{kind}: cloning wrote to a tensor of the original: {tc}", key=f"clone-changed-the-original|{kind}|tensor")
+            return res
+        if proto0 is not None and _proto_bytes(model) != proto0:
+            viol("clone-changed-the-original", f"{kind}: the original serializes differently after it was cloned", key=f"clone-changed-the-original|{kind}|proto")
+            return res
     w1 = World()
     w1.reg(model if kind != "view" else model)
     w1.close()
@@ -374,6 +464,9 @@ def run_case(case: dict) -> dict:
             viol("functionalize-altered-input", f"functionalize({case['pass']}) changed its input model: {str(d[:2])[:500]}", key=f"functionalize-altered-input|{case['pass']}")
             return res
         if pb is not None and _proto_bytes(model) != pb:
+            if _only_shared_attribute_tensor_renamed(tensors0, planted, lambda: _proto_bytes(model), pb):
+                viol("functionalize-altered-input", f"functionalize({case['pass']}): renaming, in the copy, a Constant output whose const_value is the tensor object of the node's attribute renamed that (shared) tensor: the input model serializes differently afterwards", key="shared-attribute-tensor-renamed-through-value-name|functionalize")
+                return res
             viol("functionalize-altered-input", f"functionalize({case['pass']}): the input model serializes differently afterwards", key=f"functionalize-altered-input|{case['pass']}|proto")
             return res
         if result is not None:
@@ -441,12 +534,17 @@ def run_case(case: dict) -> dict:
         return res
     # ------------------------------------------------------------- edit phase: two replicas
     worlds = (w1, w2)
+    sides = (original_obj, clone_obj)
+    protos: list = [None, None]  # serialized form of each side as of its own last edit (None: to be taken)
     applied = [0, 0]
     for i, (op, side) in enumerate(zip(case["edits"], case["route"])):
         target, other = worlds[side], worlds[1 - side]
         if op[0] == "meta_mutate" and not deep and op[2] % 5 not in (3, 4):
             continue  # a shallow copy shares the objects stored in .meta by design (the store itself - its entries and their validity marks - is the copy's own)
         before = snapshot.snapshot(other, tensors=False)
+        if protos[1 - side] is None:
+            protos[1 - side] = (_proto_bytes(sides[1 - side]),)
+        tensors_b = _tensor_states(model) if planted else {}
         r = ops.apply_op(target, op)
         trace.append((side, op[0], r[0], r[1] if r[0] == "raise" else None))
         if r[0] == "ok":
@@ -461,6 +559,21 @@ def run_case(case: dict) -> dict:
             c["route"] = case["route"][: i + 1]
             res["case"] = c
             break
+        protos[side] = None
+        pb_other = protos[1 - side][0]
+        if pb_other is not None:
+            inc("edit_phase_proto_compared")
+            if _proto_bytes(sides[1 - side]) != pb_other:
+                whom = f"edit {i} ({op[0]}, {r[0]}) on the {'clone' if side else 'original'}: the {'original' if side else 'clone'} serializes differently afterwards"
+                if _only_shared_attribute_tensor_renamed(tensors_b, planted, lambda: _proto_bytes(sides[1 - side]), pb_other):
+                    viol("replica-not-isolated", f"{kind}: {whom} - a Constant output whose const_value is the tensor object of the node's attribute was renamed, which renamed that (shared) tensor", key="shared-attribute-tensor-renamed-through-value-name|edit")
+                else:
+                    viol("replica-not-isolated", f"{kind}: {whom}", key=f"replica-not-isolated|{op[0]}|proto")
+                c = copy.deepcopy(case)
+                c["edits"] = case["edits"][: i + 1]
+                c["route"] = case["route"][: i + 1]
+                res["case"] = c
+                break
     inc("edits_on_original", applied[0])
     inc("edits_on_clone", applied[1])
     res["steps"] = len(trace)
